@@ -91,6 +91,18 @@ Fixpoint internal_loop (i : nat) (s1 s2 : list Z) (ws : option (list Q)) (rm_amb
 Definition count_diffs_internal (s1 s2 : list Z) (ws : option (list Q)) (rm_amb : bool) : Q * Q :=
   internal_loop 0 s1 s2 ws rm_amb true true 0 0 0 0.
 
+(* SPEC of "internal gaps only", by columns: the columns where either row is still in its leading run of
+   non-nucleotides, or already in its trailing one, are left out; on the others every gap against a
+   nucleotide counts *)
+Fixpoint lead_nonnuc (s : list Z) : nat :=
+  match s with a :: t => if is_nuc a then O else S (lead_nonnuc t) | [] => O end.
+Definition count_diffs_internal_spec (s1 s2 : list Z) (ws : option (list Q)) (rm_amb : bool) : Q * Q :=
+  let L := length s1 in
+  let lead := Nat.max (lead_nonnuc s1) (lead_nonnuc s2) in
+  let trail := Nat.max (lead_nonnuc (rev s1)) (lead_nonnuc (rev s2)) in
+  let mask := map (fun i => Nat.leb lead i && Nat.ltb i (L - trail)) (seq 0 L) in
+  count_diffs_gaps s1 s2 mask ws rm_amb.
+
 (* transitions / transversions on IUPAC bit sets *)
 Definition NT_R : Z := 5.    (* A | G *)
 Definition NT_Y : Z := 10.   (* C | T *)
